@@ -1141,6 +1141,11 @@ fn search_c11(tier: &str, seed: u64) {
         let k = 1 + rng.below(2);
         seqs.push((0..k).map(|_| random_doc(&mut rng, &["a", "b", "c"], &["x", "h:c", "y"], 3, 8)).collect());
     }
+    // names that collide as Rust identifiers (the byte-for-byte comparison does not need readable names)
+    for _ in 0..(if thorough { 8000 } else { 1000 }) {
+        let k = 1 + rng.below(2);
+        seqs.push((0..k).map(|_| random_doc(&mut rng, &["UserId", "UserID", "user_id", "p", "b"], &["x", "X"], 3, 10)).collect());
+    }
     for s in &seqs {
         let key = s.iter().map(|n| write_doc(n, &Style::default())).collect::<Vec<_>>().join(" ; ");
         if stats.evals == 9 {
@@ -1160,7 +1165,7 @@ fn search_c11(tier: &str, seed: u64) {
             }
         }
     }
-    stats.print("document sequences (exhaustive small forests, seeded random larger ones), each rendered in the base spelling and after each listed rewrite (<x></x>, declaration+DOCTYPE, comments, PIs, text<->CDATA, other values/text, expand_empty_elements, BufReader capacities 1,2,3,7,64) and compared byte for byte", &sample);
+    stats.print("document sequences (exhaustive small forests, seeded random larger ones, also over names that collide as identifiers), each rendered in the base spelling and after each listed rewrite (<x></x>, declaration+DOCTYPE, comments, PIs, text<->CDATA, other values/text, expand_empty_elements, BufReader capacities 1,2,3,7,64) and compared byte for byte", &sample);
 }
 
 // ------------------------------------------------------------------------------------------------ C08
@@ -1310,6 +1315,27 @@ fn witness_bytes(prop: &str, inputs: &[&[u8]], what: &str) {
     let hx: Vec<String> = inputs.iter().map(|d| format!("\"{}\"", hex(d))).collect();
     let ds: Vec<String> = inputs.iter().map(|d| format!("\"{}\"", esc(&String::from_utf8_lossy(d)))).collect();
     println!("{{\"witness\":{{\"kind\":\"bytes\",\"property\":\"{}\",\"docs\":[{}],\"docs_hex\":[{}],\"violation\":\"{}\"}}}}", prop, ds.join(","), hx.join(","), esc(what));
+}
+
+/// can the harness still read the tree back from its Debug output?  (a hand-written Debug impl, a renamed field, ... would make every tree-level comparison vacuous)
+fn observation_selftest() -> Option<String> {
+    let root = match into_struct(&mut Reader::from_reader(&b"<r a=\"1\" b=\"2\"><k x=\"1\"/><k/><c>t</c><d><e/></d></r>"[..])) {
+        Ok(r) => r,
+        Err(e) => return Some(format!("the probe document does not parse: {e}")),
+    };
+    let v = match view(&root) {
+        Ok(v) => v,
+        Err(e) => return Some(format!("the Debug output of the tree cannot be read back: {e}")),
+    };
+    let attrs: Vec<(bool, &str)> = v.attrs.iter().map(|(m, a)| (*m, a.as_str())).collect();
+    let kids: Vec<(bool, &str, bool, bool, usize, usize)> = v.kids.iter().map(|(m, k)| (*m, k.name.as_str(), k.standalone, k.text, k.attrs.len(), k.kids.len())).collect();
+    let mut ks = kids.clone();
+    ks.sort();
+    let want_k = vec![(true, "c", true, true, 0usize, 0usize), (true, "d", true, false, 0, 1), (true, "k", false, false, 1, 0)];
+    if v.name != "r" || attrs != vec![(true, "a"), (true, "b")] || ks != want_k {
+        return Some(format!("the probe document <r a b><k x/><k/><c>t</c><d><e/></d></r> is read back as name {:?}, attributes {:?}, children {:?}", v.name, attrs, kids));
+    }
+    None
 }
 
 static WITNESS_SEEN: std::sync::atomic::AtomicBool = std::sync::atomic::AtomicBool::new(false);
@@ -2085,6 +2111,13 @@ fn main() {
             let (prop, tier) = (a[2].as_str(), a[3].as_str());
             let seed: u64 = a.get(4).and_then(|s| s.parse().ok()).unwrap_or(0);
             std::panic::set_hook(Box::new(|_| {}));
+            if ["C01", "C03", "C06", "C09", "C16"].contains(&prop) {
+                if let Some(why) = observation_selftest() {
+                    // the tree is observed through its Debug output; if that cannot be read back the search would be blind
+                    println!("{{\"stats\":{{\"evaluations\":0,\"distinct_nontrivial\":0,\"rule\":\"BLIND: {}\",\"sample\":\"\"}}}}", esc(&why));
+                    return;
+                }
+            }
             match prop {
                 "C15" => search_c15(tier, seed),
                 "C16" => search_c16(tier, seed),
